@@ -133,7 +133,12 @@ def main(argv=None):
             k = next(((s, d) for s, d in known if fnmatch.fnmatchcase(sig, s)), None)
             if k: known_hits.setdefault(k, []).append((r["config"], v))
             else: new_v.append((r["config"], v))
-    unmet = [(r["config"], g) for r in results for g in r.get("unmet_goals", [])]
+    # cover goals: a configuration in which a *known* finding fired is pruned at that finding, so goals behind it may be
+    # unreachable; those are reported as reduced coverage, not as a vacuous check.
+    def _has_known(r):
+        return any(any(fnmatch.fnmatchcase(v["rule"], s) for s, _ in known) for v in r.get("violations", []))
+    unmet = [(r["config"], g) for r in results if not _has_known(r) for g in r.get("unmet_goals", [])]
+    reduced = [(r["config"], g) for r in results if _has_known(r) for g in r.get("unmet_goals", [])]
     # ---- evidence
     ok_results = [r for r in results if not r.get("error")]
     samples = []
@@ -160,7 +165,7 @@ def main(argv=None):
                                           state_bytes=r.get("state_bytes"), outcomes=r.get("outcomes"), wall_s=r.get("wall_s"))
                                      for r in results],
                   distinct_outcomes=sum(r.get("outcomes", 0) for r in ok_results),
-                  cover_goals=cover, unmet_goals=jsonable(unmet),
+                  cover_goals=cover, unmet_goals=jsonable(unmet), goals_unreachable_behind_known_findings=jsonable(reduced),
                   known_findings=[dict(sig=s, desc=d, hits=sum(v["count"] for _, v in hits)) for (s, d), hits in known_hits.items()],
                   machinery_errors=[r["error"].splitlines()[0] for r in errors],
                   method="explicit-state BFS over the C-compiled Amaranth netlist of the class under test; explored traces replayed in amaranth.sim"),
